@@ -234,6 +234,11 @@ var scopeSets = [][]string{
 	{"profile", "email"},
 	{"offline_access", "custom:x"},
 	{"email", "openid", "profile", "custom:y", "offline_access"},
+	{"openid", "address"},
+	{"openid", "phone", "address", "offline_access"},
+	{"openid", "profile", "email", "phone", "address"},
+	{"address", "openid", "custom:x", "phone", "offline_access", "profile"},
+	{"phone", "address"},
 }
 
 func contains(l []string, s string) bool {
@@ -283,11 +288,14 @@ func gen(r drv.Rand, i int, nKeys int) params {
 	p.assert = r.Bool()
 	p.refreshGrant = r.Chance(3, 4)
 	p.scopes = append([]string{}, drv.Pick(r, scopeSets)...)
-	if r.Chance(1, 4) {
-		p.dropID = []string{drv.Pick(r, []string{"email", "profile", "custom:x"})}
+	if x := drv.Pick(r, []string{"", "", "phone", "address", "email", "profile"}); x != "" && !contains(p.scopes, x) {
+		p.scopes = append(p.scopes, x)
 	}
 	if r.Chance(1, 4) {
-		p.dropAT = []string{drv.Pick(r, []string{"custom:x", "custom:y", "email"})}
+		p.dropID = []string{drv.Pick(r, []string{"email", "profile", "custom:x", "address", "phone"})}
+	}
+	if r.Chance(1, 4) {
+		p.dropAT = []string{drv.Pick(r, []string{"custom:x", "custom:y", "email", "address"})}
 	}
 	p.subject = drv.Pick(r, subjects)
 	switch r.IntN(5) {
@@ -453,6 +461,7 @@ func dropFn(drop []string) func([]string) []string {
 // (the signing algorithm; every algorithm of the history when the key will change).
 func setup(p params, sk signState, provAlgs []string) (*refstore.Store, *opfix.Fixture) {
 	st := opfix.NewStd()
+	st.EnableRichClaims() // every standard scope yields a claim group (refstore/ext_c06.go)
 	applyKey(st, sk)
 	for _, s := range subjects {
 		if s != "nobody" && st.Users[s] == nil {
@@ -825,17 +834,36 @@ func extras(m map[string]any, known []string) string {
 	return emit.List(items)
 }
 
-var idKnown = []string{"iss", "sub", "aud", "azp", "client_id", "exp", "iat", "auth_time", "nonce", "acr", "amr", "at_hash", "c_hash", "name", "email", "email_verified"}
+var idKnown = []string{"iss", "sub", "aud", "azp", "client_id", "exp", "iat", "auth_time", "nonce", "acr", "amr", "at_hash", "c_hash", "name", "email", "email_verified", "preferred_username", "phone_number", "phone_number_verified", "address"}
 var atKnown = []string{"iss", "sub", "aud", "exp", "iat", "nbf", "client_id", "jti"}
 
 func emitIDClaims(m map[string]any) string {
 	ev, _ := m["email_verified"].(bool)
+	pv, _ := m["phone_number_verified"].(bool)
+	// address: the formatted member is modelled; any other member counts as an unknown claim
+	addr := ""
+	rest := map[string]any{}
+	for k, v := range m {
+		rest[k] = v
+	}
+	if a, ok := m["address"].(map[string]any); ok {
+		addr, _ = a["formatted"].(string)
+		for k, v := range a {
+			if k != "formatted" {
+				rest["address."+k] = v
+			}
+		}
+	} else if m["address"] != nil {
+		rest["address.?"] = m["address"]
+	}
 	return emit.Ctor("mkID", emit.Str(strClaim(m, "iss")), emit.Str(strClaim(m, "sub")), emit.StrList(audClaim(m)),
 		emit.Str(strClaim(m, "azp")), emit.Str(strClaim(m, "client_id")),
 		emit.Z(intField(m, "exp")), emit.Z(intField(m, "iat")), emit.Z(intField(m, "auth_time")),
 		emit.Str(strClaim(m, "nonce")), emit.Str(strClaim(m, "acr")), emit.StrList(strsClaim(m, "amr")),
 		emit.Str(strClaim(m, "at_hash")), emit.Str(strClaim(m, "c_hash")),
-		emit.Str(strClaim(m, "name")), emit.Str(strClaim(m, "email")), emit.Bool(ev), extras(m, idKnown))
+		emit.Str(strClaim(m, "name")), emit.Str(strClaim(m, "email")), emit.Bool(ev),
+		emit.Str(strClaim(m, "preferred_username")), emit.Str(strClaim(m, "phone_number")), emit.Bool(pv), emit.Str(addr),
+		extras(rest, idKnown))
 }
 
 func emitATClaims(m map[string]any) string {
@@ -898,6 +926,17 @@ func hashEntry(s string) string {
 	return emit.Pair(emit.Str(s), emit.Pair(emit.Pair(emit.Bytes(a[:]), emit.Bytes(b[:])), emit.Bytes(c[:])))
 }
 
+// uiCount: how many of the four userinfo scopes the request carries
+func uiCount(scopes []string) int {
+	n := 0
+	for _, x := range []string{"profile", "email", "phone", "address"} {
+		if contains(scopes, x) {
+			n++
+		}
+	}
+	return n
+}
+
 func optStrs(l []string) []string {
 	if l == nil {
 		return []string{}
@@ -940,7 +979,8 @@ func oneCase(p params, sk signState, st *refstore.Store, f *opfix.Fixture, pool 
 	}
 	userTerm := emit.None
 	if u := st.Users[res.rqSub]; u != nil {
-		userTerm = emit.Some(emit.Ctor("mkUser", emit.Str(u.Name), emit.Str(u.Email)))
+		userTerm = emit.Some(emit.Ctor("mkUser", emit.Str(u.Name), emit.Str(u.Email),
+			emit.Str(refstore.RichUsername(u.Subject)), emit.Str(refstore.RichPhone(u.Subject)), emit.Str(refstore.RichAddress(u.Subject))))
 	}
 	reqTerm := emit.Ctor("mkReq", emit.Str(res.rqSub), emit.StrList(optStrs(res.rqAud)), emit.StrList(optStrs(res.rqScopes)),
 		emit.Str(res.rqNonce), emit.Str(res.rqACR), emit.StrList(optStrs(res.rqAMR)), emit.Z(res.rqAuth))
@@ -1111,7 +1151,7 @@ func oneCase(p params, sk signState, st *refstore.Store, f *opfix.Fixture, pool 
 	tags := []string{"router=" + p.router.String(), "flow=" + p.flow, "at=" + atKind, "alg=" + string(sk.alg), fmt.Sprintf("skew=%d", p.skew),
 		fmt.Sprintf("idlife=%d", p.idLife), fmt.Sprintf("atlife=%d", p.atLife), "subject_colon=" + colon, "openid=" + openid,
 		"assert=" + emit.Bool(p.assert), fmt.Sprintf("offset=%d", p.offset), fmt.Sprintf("custom=%v", contains(res.rqScopes, "custom:x") || contains(res.rqScopes, "custom:y")),
-		fmt.Sprintf("extrakey=%v", sk.extraKid != ""), fmt.Sprintf("valgs_default=%v", p.vAlgs == nil), "hist=" + hist}
+		fmt.Sprintf("extrakey=%v", sk.extraKid != ""), fmt.Sprintf("valgs_default=%v", p.vAlgs == nil), "hist=" + hist, fmt.Sprintf("uiscopes=%d", uiCount(res.rqScopes))}
 	w.Add(emit.Case{Input: emit.Ctor("ICase", caseTerm), Observed: observed, Tags: tags,
 		Human: map[string]any{"params": fmt.Sprintf("%+v", p), "status": res.status, "access_token": res.access, "id_token": res.idToken,
 			"subject": res.rqSub, "scopes": res.rqScopes}})
@@ -1179,7 +1219,7 @@ func main() {
 		history(r, p, sk, algs, pool, w, tl)
 	}
 	err := w.Close(emit.Meta{Property: "C06", Tier: cfg.Tier, Seed: cfg.Seed,
-		Rule: "one case = one token response: a complete flow (code, implicit id_token / id_token token, refresh, device, client_credentials, jwt-bearer, token-exchange for access / refresh / ID token) run over HTTP recorders against the Provider or LegacyServer router on refstore; flow and router cycle deterministically, the rest is drawn from the PRNG: signing key (RS256, PS256, ES256, ES384, ES512, EdDSA; two key materials per algorithm under the SAME kid, kid shared across algorithms in half of the cases; optionally a second published key), access-token type, client clock skew (0, +-30 s), ID/access-token lifetimes, scope set (with/without openid, userinfo scopes, offline_access, custom:x/y), restricted scopes, userinfo-assertion flag, subject (also with ':' and unknown to the user store), audience, nonce/acr/amr/auth time, and the verifier configuration (consistent in most cases; default algorithm list, short offset against a negative skew as inconsistent ones). Every fifth slot is a multi-issuance history in one store/provider (tag hist=): issue, replace the storage's signing key (same kid new material and back; new kid new material with the old key still published; same kid other algorithm), issue again - or two providers alive at once with the same kid and different key material, issuing alternately; each response is a case of its own whose input names the key current at that issuance and which is verified against the /keys document served at that time. Every case issues tokens, so non-trivial = all; distinct = distinct (input, model path class: flow x token kind x refresh token x verdicts).",
+		Rule: "one case = one token response: a complete flow (code, implicit id_token / id_token token, refresh, device, client_credentials, jwt-bearer, token-exchange for access / refresh / ID token) run over HTTP recorders against the Provider or LegacyServer router on refstore; flow and router cycle deterministically, the rest is drawn from the PRNG: signing key (RS256, PS256, ES256, ES384, ES512, EdDSA; two key materials per algorithm under the SAME kid, kid shared across algorithms in half of the cases; optionally a second published key), access-token type, client clock skew (0, +-30 s), ID/access-token lifetimes, scope set (15 base sets plus a random extra standard scope: with/without openid, every subset pattern of profile/email/phone/address, offline_access, custom:x/y; the storage serves a distinct claim group per standard scope and marks userinfo scopes that reach the private-claims lookup), restricted scopes, userinfo-assertion flag, subject (also with ':' and unknown to the user store), audience, nonce/acr/amr/auth time, and the verifier configuration (consistent in most cases; default algorithm list, short offset against a negative skew as inconsistent ones). Every fifth slot is a multi-issuance history in one store/provider (tag hist=): issue, replace the storage's signing key (same kid new material and back; new kid new material with the old key still published; same kid other algorithm), issue again - or two providers alive at once with the same kid and different key material, issuing alternately; each response is a case of its own whose input names the key current at that issuance and which is verified against the /keys document served at that time. Every case issues tokens, so non-trivial = all; distinct = distinct (input, model path class: flow x token kind x refresh token x verdicts).",
 		Extra: map[string]any{"clock_ambiguous": tl.ambiguous, "setup_failed": tl.failedSetup}})
 	if err != nil {
 		fmt.Fprintln(os.Stderr, err)
